@@ -303,3 +303,14 @@ CHECKS["C05"]["batches"] += [
 ]
 CHECKS["C05"]["rule"] += ("; plus random multi-failure subsets: histories and arbitrary-byte deserializations in which every "
                           "failable allocator call fails with probability 1/2 .. 1/25 from a per-plan sub-seed")
+
+# bounded-exhaustive short histories (24-operation alphabet): all sequences of length <= 3 (14 424) in the
+# quick tier, all of length <= 4 (346 200) in the thorough tier, on tiny pools
+CHECKS["C04"]["batches"].append(
+    {"family": "hist", "mode": "enum", "cfgs": {"quick": ["B", "G"], "thorough": ["B", "G", "F", "A"]},
+     "runs": {"quick": 14424, "thorough": 346200}})
+CHECKS["C04"]["rule"] += ("; plus mode 'enum': run r is the r-th sequence (shortest first) over a fixed alphabet of 24 concrete "
+                          "operations on one document, enumerated completely up to the stated length")
+CHECKS["C06"]["batches"].append(
+    {"family": "hist", "mode": "enum", "cfgs": {"quick": ["G"], "thorough": ["B", "G"]},
+     "runs": {"quick": 14424, "thorough": 346200}})
